@@ -16,7 +16,7 @@ def adapt(run):
     for ev in run["ev"]:
         k = ev["ev"]
         if k == "emit_call":
-            cur = {"ev": "EmitCall", "e": ev["e"], "deliveries": [], "fired": False}
+            cur = {"ev": "EmitCall", "e": ev["e"], "deliveries": [], "fired": False, "mdok": True}
             out.append(cur)
         elif k in ("emit_ret", "emit_raised"):
             cur = None
@@ -27,6 +27,7 @@ def adapt(run):
             d2[ev["d"]] = (e, ev["probe"])
             if cur is not None and cur["e"] == e:
                 cur["deliveries"].append(ev["probe"])
+                cur["mdok"] = cur["mdok"] and ev["md"] == [e]
             else:
                 out.append({"ev": "LateDelivery", "e": e, "c": ev["probe"]})
         elif k == "release" and ev["fired"]:
@@ -57,6 +58,8 @@ def attribute(run, trace, idx):
     k = ev["ev"]
     if k == "EmitCall":
         exp = list(range(1, len(run["cfg"]["cons"]) + 1))
+        if not ev.get("mdok", True):
+            return "C10", "element %s reached a consumer without exactly its own metadata" % ev["e"]
         if ev["deliveries"] != exp:
             return "C02", "consumers were served %s instead of %s (fan-out order / completeness)" % (ev["deliveries"], exp)
         return "C05", "reference handling in _emit differs from the specification"
